@@ -1,13 +1,9 @@
-(** C11 (fragment F5): [parse_encode] for the fragment F4 extended by the leaf named objects.
+(** C11 (fragment F6): [parse_encode] for the fragment F5 extended by Name declarations whose value is a string.
 
-    F5 = F4 + Mutex(SEG, sync flags), Event(SEG) and OperationRegion(SEG, space, offset, length) whose offset and
-    length are integer constants (Zero / One / Ones / Byte- / Word- / DWord- / QWordPrefix): single-segment names;
-    anywhere an item of F4 may stand (top level, bodies of Device / ThermalZone / Processor / PowerResource / Method,
-    inside the Scope directives over the predefined scopes).
-    Productions added to F4: DefMutex (NameString = NameSeg, SyncFlags ByteData), DefEvent, DefOpRegion (RegionSpace
-    ByteData, RegionOffset / RegionLen TermArg = integer constant).  For an OperationRegion the first pass leaves the
-    two TermArgs as the next objects of the enclosing scope; connectNamedObjArgs attaches them (attachSiblingsAsArgs,
-    two siblings). *)
+    F6 = F5 + Name(SEG, "characters"): a string of ASCII characters 0x01 .. 0x7f (possibly empty), anywhere an item of
+    F5 may stand.  Productions added to F5: DataRefObject = String (StringPrefix AsciiCharList NullChar).
+    The string is an object of its own after the first pass (the parser records table and byte range, not the bytes),
+    connectNamedObjArgs attaches it to the Name, and the namespace view reads the bytes back from the table image. *)
 From Coq Require Import NArith ZArith Arith List Bool Lia Permutation.
 From Coq Require Import ZifyBool ZifyN ZifyNat.
 From FF Require Import Lib.Word Gen.Consts_device_acpi_aml Gen.Consts_aml_tree Aml.Stream Aml.Lex Aml.LexProofs
@@ -21,11 +17,11 @@ Local Open Scope N_scope.
 
 Ltac Zify.zify_post_hook ::= Z.div_mod_to_equations.
 
-Fixpoint f5_item (a : ast) : option item :=
+Fixpoint f6_item (a : ast) : option item :=
   let go := fix go (l : list ast) : option (list item) :=
               match l with
               | [] => Some []
-              | x :: t => match f5_item x, go t with Some i, Some r => Some (i :: r) | _, _ => None end
+              | x :: t => match f6_item x, go t with Some i, Some r => Some (i :: r) | _, _ => None end
               end in
   let blk (bk : bkind) (k : N) (nm : namestr) (fa : list N) (body : list ast) : option item :=
       match simple_name nm, go body with
@@ -34,6 +30,7 @@ Fixpoint f5_item (a : ast) : option item :=
       end in
   match a with
   | AName nm (AConst op v) => match simple_name nm with Some seg => Some (IName (mkDecl seg op v)) | None => None end
+  | AName nm (AStr b) => match simple_name nm with Some seg => Some (ILeaf LName seg [] [TStr b]) | None => None end
   | ADevice k nm body => blk BDev k nm [] body
   | AThermal k nm body => blk BTZ k nm [] body
   | AProcessor k nm id addr len body => blk BProc k nm [id; addr; len] body
@@ -46,56 +43,56 @@ Fixpoint f5_item (a : ast) : option item :=
   | _ => None
   end.
 
-Fixpoint f5_items (l : list ast) : option (list item) :=
+Fixpoint f6_items (l : list ast) : option (list item) :=
   match l with
   | [] => Some []
-  | x :: t => match f5_item x, f5_items t with Some i, Some r => Some (i :: r) | _, _ => None end
+  | x :: t => match f6_item x, f6_items t with Some i, Some r => Some (i :: r) | _, _ => None end
   end.
 
-Definition f5_titem (a : ast) : option titem :=
+Definition f6_titem (a : ast) : option titem :=
   match a with
   | AScope k nm body =>
-      match scope_target nm, f5_items body with
+      match scope_target nm, f6_items body with
       | Some (root, d), Some b => Some (TScope k root d b)
       | _, _ => None
       end
-  | _ => match f5_item a with Some it => Some (TItem it) | None => None end
+  | _ => match f6_item a with Some it => Some (TItem it) | None => None end
   end.
 
-Fixpoint f5_titems (l : list ast) : option (list titem) :=
+Fixpoint f6_titems (l : list ast) : option (list titem) :=
   match l with
   | [] => Some []
-  | x :: t => match f5_titem x, f5_titems t with Some i, Some r => Some (i :: r) | _, _ => None end
+  | x :: t => match f6_titem x, f6_titems t with Some i, Some r => Some (i :: r) | _, _ => None end
   end.
 
-Definition in_fragment_F5 (tables : list (list ast)) : bool :=
+Definition in_fragment_F6 (tables : list (list ast)) : bool :=
   match tables with
-  | [p] => match f5_titems p with Some _ => lenN (encode_table p) <? 0x10000000 | None => false end
+  | [p] => match f6_titems p with Some _ => lenN (encode_table p) <? 0x10000000 | None => false end
   | _ => false
   end.
 
-Lemma f5_item_ast : forall a it, f5_item a = Some it -> a = item_ast it /\ shape_ok it = true.
+Lemma f6_item_ast : forall a it, f6_item a = Some it -> a = item_ast it /\ shape_ok it = true.
 Proof.
   fix IH 1. intros a it.
   assert (HL : forall l b, (fix go (l : list ast) : option (list item) :=
                               match l with
                               | [] => Some []
-                              | x :: t => match f5_item x, go t with Some i, Some r => Some (i :: r) | _, _ => None end
+                              | x :: t => match f6_item x, go t with Some i, Some r => Some (i :: r) | _, _ => None end
                               end) l = Some b -> l = map item_ast b /\ forallb shape_ok b = true).
   { induction l as [|x t IHt]; intros b Hb.
     - inversion Hb. split; reflexivity.
-    - destruct (f5_item x) as [i|] eqn:Ei; [|discriminate].
+    - destruct (f6_item x) as [i|] eqn:Ei; [|discriminate].
       match type of Hb with match ?G with _ => _ end = _ => destruct G as [r|] eqn:Er; [|discriminate] end.
       inversion Hb; subst b. cbn [map forallb]. destruct (IH x i Ei) as (-> & Hi). destruct (IHt r eq_refl) as (-> & Hr).
       rewrite Hi, Hr. split; reflexivity. }
   destruct a as [ | | | | | | | | | | | | | k nm body | k nm body | k nm id addr len body | k nm level order body | k nm fl body | nm v | nm space off len | | | | nm sync | nm ]; try discriminate;
-    cbn [f5_item];
+    cbn [f6_item];
     try (destruct (simple_name nm) as [seg|] eqn:En; [|discriminate]; apply simple_name_eq in En; subst nm;
          match goal with |- match ?G with _ => _ end = _ -> _ => destruct G as [b|] eqn:Eb; [|discriminate] end;
          intros E; inversion E; subst it; destruct (HL body b Eb) as (-> & Hb); split; [reflexivity|];
          cbn [shape_ok bk_ws length Nat.eqb andb]; exact Hb).
-  - destruct v; try discriminate. destruct (simple_name nm) as [seg|] eqn:En; [|discriminate]. apply simple_name_eq in En. subst nm.
-    intros E; inversion E. split; reflexivity.
+  - destruct v; try discriminate; (destruct (simple_name nm) as [seg|] eqn:En; [|discriminate]); apply simple_name_eq in En; subst nm;
+      intros E; inversion E; split; reflexivity.
   - destruct off; try discriminate. destruct len; try discriminate. destruct (simple_name nm) as [seg|] eqn:En; [|discriminate]. apply simple_name_eq in En. subst nm.
     intros E; inversion E. split; reflexivity.
   - destruct (simple_name nm) as [seg|] eqn:En; [|discriminate]. apply simple_name_eq in En. subst nm.
@@ -104,41 +101,41 @@ Proof.
     intros E; inversion E. split; reflexivity.
 Qed.
 
-Lemma f5_items_ast : forall p its, f5_items p = Some its -> p = map item_ast its /\ forallb shape_ok its = true.
+Lemma f6_items_ast : forall p its, f6_items p = Some its -> p = map item_ast its /\ forallb shape_ok its = true.
 Proof.
-  induction p as [|x t IH]; intros its Hp; cbn [f5_items] in Hp.
+  induction p as [|x t IH]; intros its Hp; cbn [f6_items] in Hp.
   - inversion Hp. split; reflexivity.
-  - destruct (f5_item x) as [i|] eqn:Ei; [|discriminate]. destruct (f5_items t) as [r|] eqn:Er; [|discriminate].
-    inversion Hp; subst its. cbn [map forallb]. destruct (f5_item_ast x i Ei) as (-> & Hi). destruct (IH r eq_refl) as (-> & Hr).
+  - destruct (f6_item x) as [i|] eqn:Ei; [|discriminate]. destruct (f6_items t) as [r|] eqn:Er; [|discriminate].
+    inversion Hp; subst its. cbn [map forallb]. destruct (f6_item_ast x i Ei) as (-> & Hi). destruct (IH r eq_refl) as (-> & Hr).
     rewrite Hi, Hr. split; reflexivity.
 Qed.
 
-Lemma f5_titem_ast a x : f5_titem a = Some x -> a = titem_ast x /\ tscope_ok x /\ tshape x = true.
+Lemma f6_titem_ast a x : f6_titem a = Some x -> a = titem_ast x /\ tscope_ok x /\ tshape x = true.
 Proof.
-  assert (Hgen : match f5_item a with Some it => Some (TItem it) | None => None end = Some x -> a = titem_ast x /\ tscope_ok x /\ tshape x = true).
-  { destruct (f5_item a) as [it|] eqn:Ei; [|discriminate]. intros E; inversion E. destruct (f5_item_ast a it Ei) as (A & B). split; [exact A|split; [exact I|exact B]]. }
-  destruct a; try exact Hgen. clear Hgen. cbn [f5_titem].
-  destruct (scope_target nm) as [[root d]|] eqn:En; [|discriminate]. destruct (f5_items body) as [b|] eqn:Eb; [|discriminate].
+  assert (Hgen : match f6_item a with Some it => Some (TItem it) | None => None end = Some x -> a = titem_ast x /\ tscope_ok x /\ tshape x = true).
+  { destruct (f6_item a) as [it|] eqn:Ei; [|discriminate]. intros E; inversion E. destruct (f6_item_ast a it Ei) as (A & B). split; [exact A|split; [exact I|exact B]]. }
+  destruct a; try exact Hgen. clear Hgen. cbn [f6_titem].
+  destruct (scope_target nm) as [[root d]|] eqn:En; [|discriminate]. destruct (f6_items body) as [b|] eqn:Eb; [|discriminate].
   intros E; inversion E. destruct (scope_target_eq _ _ _ En) as (-> & Hd). cbn [titem_ast tscope_ok tshape].
-  destruct (f5_items_ast _ _ Eb) as (-> & Hs). split; [reflexivity|split; [exact Hd|exact Hs]].
+  destruct (f6_items_ast _ _ Eb) as (-> & Hs). split; [reflexivity|split; [exact Hd|exact Hs]].
 Qed.
 
-Lemma f5_titems_ast : forall p ts, f5_titems p = Some ts -> p = map titem_ast ts /\ Forall tscope_ok ts /\ forallb tshape ts = true.
+Lemma f6_titems_ast : forall p ts, f6_titems p = Some ts -> p = map titem_ast ts /\ Forall tscope_ok ts /\ forallb tshape ts = true.
 Proof.
-  induction p as [|x t IH]; intros ts Hp; cbn [f5_titems] in Hp.
+  induction p as [|x t IH]; intros ts Hp; cbn [f6_titems] in Hp.
   - inversion Hp. split; [reflexivity|split; [constructor|reflexivity]].
-  - destruct (f5_titem x) as [i|] eqn:Ei; [|discriminate]. destruct (f5_titems t) as [r|] eqn:Er; [|discriminate].
-    inversion Hp; subst ts. cbn [map forallb]. destruct (f5_titem_ast x i Ei) as (-> & Hi & Hsi). destruct (IH r eq_refl) as (-> & Hr & Hsr).
+  - destruct (f6_titem x) as [i|] eqn:Ei; [|discriminate]. destruct (f6_titems t) as [r|] eqn:Er; [|discriminate].
+    inversion Hp; subst ts. cbn [map forallb]. destruct (f6_titem_ast x i Ei) as (-> & Hi & Hsi). destruct (IH r eq_refl) as (-> & Hr & Hsr).
     rewrite Hsi, Hsr. split; [reflexivity|split; [constructor; assumption|reflexivity]].
 Qed.
 
 (** THE THEOREM for the fragment F5 *)
-Theorem parse_encode_F5 : forall tables,
-  wf_program tables = true -> in_fragment_F5 tables = true -> parse_encode_statement tables.
+Theorem parse_encode_F6 : forall tables,
+  wf_program tables = true -> in_fragment_F6 tables = true -> parse_encode_statement tables.
 Proof.
-  intros tables Hwf Hfr. unfold in_fragment_F5 in Hfr.
+  intros tables Hwf Hfr. unfold in_fragment_F6 in Hfr.
   destruct tables as [|p [|p2 rest]]; try discriminate.
-  destruct (f5_titems p) as [ts|] eqn:Ets; [|discriminate]. apply N.ltb_lt in Hfr.
-  destruct (f5_titems_ast p ts Ets) as (-> & Hd & Hs).
+  destruct (f6_titems p) as [ts|] eqn:Ets; [|discriminate]. apply N.ltb_lt in Hfr.
+  destruct (f6_titems_ast p ts Ets) as (-> & Hd & Hs).
   apply parse_encode_titems; assumption.
 Qed.
